@@ -418,6 +418,9 @@ func c20BTMix(r *Run, cfg *Stream) {
 			}
 			w.MutateRows(tmp, es)
 		}
+		if huge {
+			w.Settle() // everything in table files, whatever goleveldb's background goroutines were up to
+		}
 	}
 	mkTmp()
 	s := r.NewSched()
